@@ -80,13 +80,15 @@ def two_class_single(name, family, c=1, K=2, T=20.0, prios=(0, 1), preempt=False
 # ------------------------------------------------------------------------------------------------
 # shared focused families (used by several properties)
 # ------------------------------------------------------------------------------------------------
-def noserver_upstream_block(tier, fam="F-noserver-block"):
+def noserver_upstream_block(tier, fam="F-noserver-block", ps=True):
     """infinite-server / slotted / PS node feeding a full finite node, simultaneous service ends (batches)"""
     K = 2 if tier == "quick" else 3
     out = []
     ups = [("inf", {"c": "inf"}), ("slotted", {"c": {"slotted": {"slots": [1.0, 2.0], "sizes": [2, 2], "capacitated": False, "preempt": False}}}),
            ("ps", {"c": "inf", "ps": True})]
     for name, nk in ups:
+        if name == "ps" and not ps:
+            continue
         up = dict(nk)
         up.setdefault("cap", None)
         for fb in (0.0, 0.5):
